@@ -486,7 +486,30 @@ def run_case(case):
                 dev = float(devs[ok].max())
                 allow = float((2e-3 + 2.0 * fd)[int(np.argmax(excess))])
                 res["maxes"]["E.max_dt_over_allowance"] = max(res["maxes"].get("E.max_dt_over_allowance", 0), float((devs[ok] / (2e-3 + 2.0 * fd[ok])).max()))
+                explained = False
                 if (excess > 0).any():
+                    # the linear estimate is taken at the *written* gradient; where the matrix is squeezed it can be far
+                    # from the effect of the same rounding seen from the exact one.  Decide exactly: is there a matrix
+                    # inside the rounding box (half a unit in the 3rd decimal per entry) that reproduces the paint tree?
+                    import itertools
+
+                    base_t = pnt.tvals(vb_probes)
+                    steps = (-0.5e-3, -0.25e-3, 0.0, 0.25e-3, 0.5e-3)
+                    cand = []
+                    for dl in itertools.product(steps, repeat=4):
+                        G2 = pnt.G.copy()
+                        for (i_, j_), dv in zip(((0, 0), (1, 0), (0, 1), (1, 1)), dl):
+                            G2[i_, j_] += dv
+                        cand.append(pnt.tvals(vb_probes, M=pnt.Mpre @ G2))
+                    cand = np.array(cand)
+                    spread = np.nanmax(np.abs(cand - base_t), axis=0)
+                    geom_fd = fd  # includes the geometry fields; used as the small remainder
+                    okc = np.all(np.where(ok, np.abs(cand - t_ref) <= 5e-3 + 0.35 * spread + 0.2 * geom_fd, True), axis=1)
+                    explained = bool(okc.any())
+                    bump("E.decided_by_rounding_box")
+                    if explained:
+                        bump("E.explained_by_rounding_box")
+                if (excess > 0).any() and not explained:
                     res["violations"].append({"what": f"OT-SVG gradient under nested transforms: colour parameter differs from the paint tree's (dt {dev:.3g}, allowed {allow:.3g})", "incoming_transform": list(T0), "nested": [list(x) for x in chainT], "upem_to_vbox": list(tuple(U)), "defs": dtxt[:700], "t_ref": [float(x) for x in t_ref], "t_got": [float(x) for x in t_got]})
     except ImportError as e:
         bump("E.unavailable")
